@@ -40,7 +40,11 @@ TABLES = {
     # capacity 0 and > 8, charged keys, '?' low
     "tight": {"C": 2, "N": 0, "O": 1, "F": 1, "S": 3, "N+1": 1, "O-1": 0, "H": 1, "B": 1, "?": 1},
     "wide": {"C": 9, "N": 12, "O": 3, "F": 2, "S": 10, "N+1": 5, "O-1": 2, "H": 1, "Fe": 9, "?": 12},
+    # the default entry is LOWER than the listed capacities: every unlisted key (other charges of listed elements,
+    # other elements) must fall back on it and on nothing else
+    "lowq": {"C": 4, "N": 3, "N+1": 4, "N-1": 2, "O": 2, "O-1": 1, "O+1": 3, "S": 6, "S+1": 5, "?": 1},
 }
+CHARGES2 = ["[C]", "[N+2]", "[N+1]", "[N+3]", "[O-2]", "[S+2]", "[=N+2]", "[C+1]", "[C-2]", "[Branch1]", "[Ring1]", "[=C]", "[Fe+2]", "[P]"]
 
 # large pools from which every run draws an additional random alphabet (VERIF_SEED): widens coverage over time
 DEC_POOL = sorted(set(
